@@ -30,14 +30,16 @@ def examples(tier):
 def _fix(case):
     s = case["subject"]
     if s["cls"] == "Buffer" and s.get("delay_kind") != "const":
+        # a rejected put may or may not have consulted the delay source first: keep the callable / generator form (the edge
+        # treats it differently from a number) but let it answer one and the same value, so that a consumed draw changes nothing
         d = s["delay"]
-        s = dict(s, delay_kind="const", delay=d[0] if isinstance(d, list) else d)
+        s = dict(s, delay=[d[0] if isinstance(d, list) else d])
         case = dict(case, subject=s)
     return case
 
 
 def strategy(tier):
-    return gen_store.case(CLASSES, WEIGHTS, max_ops=40, macros=4, extra=4).map(_fix)
+    return gen_store.case(CLASSES, WEIGHTS, max_ops=40, macros=4, extra=7).map(_fix)
 
 
 shrink_candidates = gen_store.shrink_candidates
